@@ -25,7 +25,8 @@ def ttl_case(draw, broker):
             "eps_us": draw(EPS), "phase_us": draw(st.integers(0, 999_999)), "age_us": draw(st.integers(0, ttl_us // 2)),
             "patience": draw(st.sampled_from([0.05, 0.3, 0.7])), "prio": draw(st.sampled_from([0, 5, 9])),
             "payload": draw(st.text("ab{}\"", max_size=5)), "due_frac": draw(st.integers(1, 99)) / 100,
-            "backoff_us": draw(st.integers(0, 3_000_000)), "period_us": draw(st.integers(1_000_000, 5_000_000))}
+            "backoff_us": draw(st.integers(0, 3_000_000)), "period_us": draw(st.integers(1_000_000, 5_000_000)),
+            "copies": draw(st.sampled_from([1, 1, 2, 3, 4]))}
     if broker != "mem":
         case["lat"] = draw(st.lists(st.sampled_from([0.0, 0.001, 0.003]), max_size=12))
     return case
@@ -72,8 +73,9 @@ async def _ttl(loop, case, out: Outcome):
     expiry = None if params.ttl is None else vclock.secs(params.timestamp) + params.ttl.total_seconds()
     if kind == "retried":
         expiry = vclock.secs(ts) + ttl.total_seconds()
-    key = RoutingKey(topic="t0", queue="qt", priority=case["prio"], id_="x1")
-    await b.enqueue(key, case["payload"], params)
+    ids = [f"x{i + 1}" for i in range(case.get("copies", 1))]  # several adjacent messages with the same fate
+    for id_ in ids:
+        await b.enqueue(RoutingKey(topic="t0", queue="qt", priority=case["prio"], id_=id_), case["payload"], params)
     slack = sum(case.get("lat", [])) + 1e-6
     if expiry is None:
         t_c = loop.time() + abs(case["eps_us"]) / 1e6 + (0 if due is None else max(0.0, due - loop.time()))
@@ -90,20 +92,56 @@ async def _ttl(loop, case, out: Outcome):
     patience = case["patience"] + base_wait + (lag if due is not None else 0.0)
     nc = b.get_consumer("qt", None, None, MessageCategory.NORMAL)
     await nc.start()
-    got = None
-    try:
-        got = await asyncio.wait_for(nc.consume(), timeout=patience)
-    except asyncio.TimeoutError:
-        pass
-    t_end = loop.time()
-    kinds_at_end = sorted(p.kind for p in env.probe().get("x1", []))  # before any more time can pass
-    if got is not None:
-        await b.reject(got[0])
+    gots: list = []
+    for _ in ids:  # one patience window per copy (a broker may need one polling round per expired message)
+        try:
+            gots.append(await asyncio.wait_for(nc.consume(), timeout=patience))
+        except asyncio.TimeoutError:
+            pass
+    t_end = loop.time()  # the whole consume window [t_c, t_end] must lie on one side of the expiry to be constrained
+    pr_end = env.probe()  # before any more time can pass
+    for g in gots:
+        await b.reject(g[0])
     await nc.finish()
     await asyncio.sleep(0.15)
-    places = env.probe().get("x1", [])
+    pr_after = env.probe()
+    delivered = {g[0].id_ for g in gots}
+    for id_ in ids:
+        _judge(out, case, env, loop, id_, id_ in delivered, pr_end, pr_after, params, expiry, due, t_c, t_end, slack, lag, kind)
+    if expiry is not None and t_c > expiry + slack and (due is None or due <= t_c - lag):
+        # every expired copy must be retrievable from the dead category with identical content
+        dc = b.get_consumer("qt", None, None, MessageCategory.DEAD)
+        await dc.start()
+        seen = set()
+        taken = []
+        try:
+            for _ in ids:
+                k, payload, prm = await asyncio.wait_for(dc.consume(), timeout=0.8)
+                seen.add(k.id_)
+                taken.append(k)
+                if payload != case["payload"] or prm != params:
+                    out.v("dead-content", f"dead-lettered message {k.id_} differs: {payload!r} {prm} vs {params}")
+        except asyncio.TimeoutError:
+            pass
+        for k in taken:
+            await b.reject(k)
+        await dc.finish()
+        missing = [i for i in ids if i not in seen and i not in delivered]
+        if missing and not any(v.sub in ("expired-not-dead", "expired-delivered") for v in out.violations):
+            out.v("dead-not-retrievable", f"{kind} messages {missing} (of {len(ids)} adjacent expired ones) are not retrievable through the DEAD "
+                  "category", broker=case["broker"])
+    band = ("after-expiry" if expiry is not None and t_c > expiry + slack else
+            "before-expiry" if (expiry is None or t_end < expiry - slack) else "unconstrained")
+    out.cls("broker-" + case["broker"], "kind-" + kind, "band-" + band, f"copies-{len(ids)}")
+    out.nontrivial = band != "unconstrained" and (abs(case["eps_us"]) <= 1_000_000 or kind not in ("immediate", "no-ttl"))
+
+
+def _judge(out, case, env, loop, id_, got, pr_end, pr_after, params, expiry, due, t_c, t_end, slack, lag, kind):
+    kinds_at_end = sorted(p.kind for p in pr_end.get(id_, []))
+    places = pr_after.get(id_, [])
     kinds = sorted(p.kind for p in places)
-    tag = (f"{kind} message, ttl {case['ttl_us'] / 1e6}s, expiry {expiry}, due {due}, consume started {t_c:.6f} "
+    got = True if got else None
+    tag = (f"{kind} message {id_}, ttl {case['ttl_us'] / 1e6}s, expiry {expiry}, due {due}, consume started {t_c:.6f} "
            f"(eps {case['eps_us']}us), ended {t_end:.6f}")
     band = "unconstrained"
     if expiry is not None and t_c > expiry + slack:
@@ -115,19 +153,8 @@ async def _ttl(loop, case, out: Outcome):
             if kinds != ["dead"]:
                 out.v("expired-not-dead", f"{tag}: expected in the dead-letter category, found {[p.short() for p in places]}",
                       broker=case["broker"], kind=kind)
-            else:
-                dc = b.get_consumer("qt", None, None, MessageCategory.DEAD)
-                await dc.start()
-                try:
-                    k, payload, prm = await asyncio.wait_for(dc.consume(), timeout=0.8)
-                    if k.id_ != "x1" or payload != case["payload"] or prm != params:
-                        out.v("dead-content", f"{tag}: dead-lettered message differs: {k} {payload!r} {prm} vs {params}")
-                    await b.reject(k)
-                except asyncio.TimeoutError:
-                    out.v("dead-not-retrievable", f"{tag}: not retrievable through the DEAD category", broker=case["broker"])
-                await dc.finish()
     elif expiry is None or t_end < expiry - slack or (
-            case["broker"] == "mem" and due is None and round(t_c * 1e6) <= round(expiry * 1e6)):
+            case["broker"] == "mem" and due is None and case.get("copies", 1) == 1 and round(t_c * 1e6) <= round(expiry * 1e6)):
         # (the in-memory broker decides at the very instant consume() starts: "exactly at expiry" is still live)
         band = "before-expiry"
         deliverable = due is None or due <= t_c - 1e-9
@@ -136,8 +163,6 @@ async def _ttl(loop, case, out: Outcome):
         elif got is None and deliverable and (due is None or t_end - max(due, t_c) >= lag):
             out.v("live-not-delivered", f"{tag}: not delivered although live and due; places {[p.short() for p in places]}",
                   broker=case["broker"], kind=kind)
-    out.cls("broker-" + case["broker"], "kind-" + kind, "band-" + band)
-    out.nontrivial = band != "unconstrained" and (abs(case["eps_us"]) <= 1_000_000 or kind not in ("immediate", "no-ttl"))
 
 
 def run_ttl(case: dict) -> Outcome:
